@@ -117,6 +117,23 @@ func ruleRotatingCommitCarriesRecord(p *Prog, r *Report, rule string) {
 		switch {
 		case arg == rparam:
 			r.OK(fnName(fn), "record-is-r@"+branchLabel(c), what)
+		case isNilConst(arg) && func() bool { _, ok := callValue(cc.Args[2], "(*leveldb.session).version"); return ok }():
+			// a snapshot of the CURRENT version (before this edit): legal only if the edit itself is
+			// still written afterwards (flushManifest(r) / newManifest carrying r) before it is installed
+			writesR := func(in ssa.Instruction) bool {
+				if in == c {
+					return false
+				}
+				if isCallTo(in, fFlushMan) {
+					return argIs(in, 1, func(v ssa.Value) bool { return v == rparam })
+				}
+				return isCallTo(in, fNewMan)
+			}
+			if w := findPath([]point{{c.Block(), indexOf(c) + 1}}, nil, writesR, evCall(fSetVer)); w != nil {
+				r.Fail(fnName(fn), "rotation-drops-record", what, "after newManifest(nil, currentVersion) at "+p.Pos(c.Pos())+" the version can be installed without the edit being written", p.Pos(c.Pos()), p.renderPath(w))
+			} else {
+				r.OK(fnName(fn), "pre-edit-snapshot@"+branchLabel(c), "a snapshot of the current (pre-edit) version is followed by a write of the edit itself before install")
+			}
 		case isNilConst(arg):
 			r.Fail(fnName(fn), "rotation-drops-record", what,
 				fmt.Sprintf("newManifest(nil, ..) at %s: the snapshot record is filled from the OLD session state (stJournalNum/stSeqNum); the edit's journal/sequence numbers are lost from the manifest and the session", p.Pos(c.Pos())), p.Pos(c.Pos()), nil)
